@@ -10,6 +10,7 @@ import (
 	"crypto/sha256"
 	"encoding/binary"
 	"encoding/hex"
+	"errors"
 	"fmt"
 	"runtime/debug"
 	"strconv"
@@ -463,10 +464,74 @@ func marshal(c *circuit.Circuit, format int) ([]byte, error) {
 	return buf.Bytes(), err
 }
 
+// fullDisk is a destination that accepts limit bytes and then fails: a full disk, a closed pipe.
+// mode 0: the failing Write reports what it took and an error; mode 1: it takes nothing and
+// fails; mode 2: it returns a short count without an error (which io.Writer forbids, but a
+// careless wrapper does) - in every mode the file is lost, the process carries on.
+type fullDisk struct {
+	limit, mode int
+	n           int
+}
+
+var errDiskFull = errors.New("simdisk: no space left on device")
+
+func (d *fullDisk) Write(p []byte) (int, error) {
+	room := d.limit - d.n
+	if room >= len(p) {
+		d.n += len(p)
+		return len(p), nil
+	}
+	if room < 0 {
+		room = 0
+	}
+	switch d.mode {
+	case 1:
+		return 0, errDiskFull
+	case 2:
+		d.n += room
+		return room, nil
+	}
+	d.n += room
+	return room, errDiskFull
+}
+
 func (w *world) roundTrip(t *rt.Tape, res *core.Result, smp *sample) *core.Failure {
 	format := t.Choose(rt.SGen, 2)
 	c := richCircuit(t)
 	smp.Mode, smp.Format, smp.Circuit = "round-trip", []string{"mpclc", "bristol"}[format], gen.Describe(c)
+	// One case in four: fail, then carry on. Before the circuit of the case is written, the process
+	// writes a circuit (this one or another, in either format) to a destination that fails after a
+	// tape-chosen number of bytes. That file is lost and nobody looks at it; what is written
+	// afterwards must be as good as ever.
+	if t.Choose(rt.SGen, 4) == 0 {
+		pc, pf := c, format
+		if t.Choose(rt.SGen, 2) == 0 {
+			pc = gen.Circuit(t, gen.CircuitOpts{MaxGates: 40})
+		}
+		if t.Choose(rt.SGen, 3) == 0 {
+			pf = 1 - format
+		}
+		whole, _ := marshal(pc, pf)
+		d := &fullDisk{limit: t.Choose(rt.SGen, len(whole)+1), mode: t.Choose(rt.SGen, 3)}
+		func() {
+			defer func() {
+				if r := recover(); r != nil {
+					res.Reach["fail-then-carry-on.marshal-to-a-full-disk-panicked (not judged)"]++
+				}
+			}()
+			var err error
+			if pf == 0 {
+				err = pc.Marshal(d)
+			} else {
+				err = pc.MarshalBristol(d)
+			}
+			if err != nil {
+				res.Reach["fail-then-carry-on.marshal-reported-the-write-error"]++
+			}
+		}()
+		res.Reach["fail-then-carry-on"]++
+		smp.Faults = append(smp.Faults, fmt.Sprintf("preceded by a Marshal (format %d) to a destination that fails after %d bytes (mode %d)", pf, d.limit, d.mode))
+	}
 	data, err := marshal(c, format)
 	if err != nil {
 		return &core.Failure{Clause: "marshal-error", Detail: err.Error()}
@@ -719,7 +784,29 @@ func (w *world) concurrent(t *rt.Tape, res *core.Result, smp *sample) *core.Fail
 	return nil
 }
 
+// faults damages one file in many ways (faults0); afterwards - fail, then carry on - the undamaged
+// file must still parse back to its circuit in the same process.
 func (w *world) faults(t *rt.Tape, res *core.Result, smp *sample) *core.Failure {
+	f, format, data, base := w.faults0(t, res, smp)
+	if f != nil || data == nil {
+		return f
+	}
+	pr := safeParse(format, data, 0, 0)
+	switch {
+	case pr.hung:
+		return &core.Failure{Clause: "parse-hangs", Detail: "after the damaged files: parsing the undamaged file did not return"}
+	case pr.panicV != nil:
+		return &core.Failure{Clause: "panic", Detail: fmt.Sprintf("after the damaged files: parsing the undamaged file panicked: %v\n%s", pr.panicV, pr.stack)}
+	case pr.err != nil || pr.allocNo:
+		return &core.Failure{Clause: "roundtrip-parse-error", Detail: fmt.Sprintf("after %d parses of damaged versions of it, the undamaged %s file (%d bytes) does not parse back: %v", res.Faults["truncate"]+res.Faults["bit-flip"]+res.Faults["field-copy"], smp.Format, len(data), pr.err)}
+	case pr.circ.NumGates != base.NumGates || pr.circ.NumWires != base.NumWires || !gatesEqual(pr.circ.Gates, base.Gates):
+		return &core.Failure{Clause: "roundtrip-differs", Detail: "after the damaged files: the undamaged file parses to other gates or counts"}
+	}
+	res.Reach["after-damaged-files.undamaged-file-parses-back"]++
+	return nil
+}
+
+func (w *world) faults0(t *rt.Tape, res *core.Result, smp *sample) (*core.Failure, int, []byte, *circuit.Circuit) {
 	format := t.Choose(rt.SGen, 2)
 	base := richCircuit(t)
 	if t.Choose(rt.SGen, 2) == 0 {
@@ -728,7 +815,7 @@ func (w *world) faults(t *rt.Tape, res *core.Result, smp *sample) *core.Failure 
 	other := gen.Circuit(t, gen.CircuitOpts{MaxGates: 30})
 	data, err := marshal(base, format)
 	if err != nil {
-		return &core.Failure{Clause: "marshal-error", Detail: err.Error()}
+		return &core.Failure{Clause: "marshal-error", Detail: err.Error()}, format, nil, nil
 	}
 	odata, _ := marshal(other, format)
 	smp.Mode, smp.Format, smp.Circuit, smp.Bytes = "damaged-file", []string{"mpclc", "bristol"}[format], gen.Describe(base), len(data)
@@ -757,10 +844,10 @@ func (w *world) faults(t *rt.Tape, res *core.Result, smp *sample) *core.Failure 
 				continue
 			}
 			if f := judge(res, smp, format, m, data, base, desc, 0); f != nil {
-				return f
+				return f, format, data, base
 			}
 		}
-		return nil
+		return nil, format, data, base
 	}
 	n := 100 + t.Choose(rt.SFault, 900)
 	// dense local enumeration: a window of consecutive truncation lengths and bit positions
@@ -909,10 +996,10 @@ func (w *world) faults(t *rt.Tape, res *core.Result, smp *sample) *core.Failure 
 			rmode = 2
 		}
 		if f := judge(res, smp, format, m, data, base, desc, rmode); f != nil {
-			return f
+			return f, format, data, base
 		}
 	}
-	return nil
+	return nil, format, data, base
 }
 
 // judge parses one damaged file and applies the property's outcome set.
